@@ -9,7 +9,7 @@
 From Coq Require Import String.
 From Coq Require Import NArith ZArith List Bool.
 From Cose Require Import Lib.Base Lib.Cbor Lib.CborProofs Model.GoVal Model.CborGo Model.Wire Model.MsgLogic Model.Msg Model.MsgProofs Model.MsgRoundTrip Model.ValueRoundTrip Model.MsgRoundTripFull
-     Lib.Hex Lib.HexProofs Model.Text Model.TextProofs Model.MsgRoundTripRecip.
+     Lib.Hex Lib.HexProofs Model.Text Model.TextProofs Model.MsgRoundTripRecip Model.KdfRoundTrip Model.CwtCodec Model.CwtCodecProofs Lib.GenTypes Gen.StructsGen.
 Import ListNotations.
 
 (* ---- the authenticated byte strings are re-emitted as received *)
@@ -157,3 +157,32 @@ Theorem C09_recipient_roundtrip : forall r bs, good_recip r -> marshal_recip r =
   (forall it, bs = encode it -> encodable it = true) -> recip_decode bs = Ok (recip_rb r).
 Proof. exact recip_roundtrip. Qed.
 Print Assumptions C09_recipient_roundtrip.
+
+(* ---- COSE_KDF_Context: MarshalCBOR then UnmarshalCBOR; nil and empty members (identity, nonce, other, SuppPrivInfo) stay apart *)
+Theorem C09_kdf_context_roundtrip : forall c bs, enc_kdf_ctx c = Some bs ->
+  (-9223372036854775808 <= kc_alg c <= 9223372036854775807)%Z -> (0 <= sp_len (kc_pub c) <= 18446744073709551615)%Z ->
+  good_map (omap (sp_prot (kc_pub c))) ->
+  (forall it, bs = encode it -> encodable it = true) ->
+  dec_kdf_ctx bs = Ok (kdf_rb c).
+Proof. exact kdf_roundtrip. Qed.
+Print Assumptions C09_kdf_context_roundtrip.
+
+(* ---- claim sets in struct form (cwt.Claims): key.MarshalCBOR then key.UnmarshalCBOR returns the claims exactly
+   (empty members are omitted and come back empty); the members and labels are those the source declares *)
+Theorem C09_claims_roundtrip : forall c, good_claims c ->
+  (forall it, enc_claims c = encode it -> encodable it = true) ->
+  dec_claims (enc_claims c) = Ok c.
+Proof. exact claims_roundtrip. Qed.
+Print Assumptions C09_claims_roundtrip.
+
+Theorem C09_claims_members_as_declared :
+  assoc StructsGen.tagged_structs "cwt.Claims"%string
+  = Some [("Issuer", "string", "cbor:""1,keyasint,omitempty"" json:""iss,omitempty""");
+          ("Subject", "string", "cbor:""2,keyasint,omitempty"" json:""sub,omitempty""");
+          ("Audience", "string", "cbor:""3,keyasint,omitempty"" json:""aud,omitempty""");
+          ("Expiration", "uint64", "cbor:""4,keyasint,omitempty"" json:""exp,omitempty""");
+          ("NotBefore", "uint64", "cbor:""5,keyasint,omitempty"" json:""nbf,omitempty""");
+          ("IssuedAt", "uint64", "cbor:""6,keyasint,omitempty"" json:""iat,omitempty""");
+          ("CWTID", "key.ByteStr", "cbor:""7,keyasint,omitempty"" json:""cti,omitempty""")]%string.
+Proof. exact claims_members_as_declared. Qed.
+Print Assumptions C09_claims_members_as_declared.
